@@ -211,6 +211,17 @@ func c11Run(w *W, idx int) {
 	if nExtra > 0 {
 		w.Inc("bindings_with_unregistered_extras")
 	}
+	// the exported normalisers agree with the oracle
+	tvm := eval.ToValueMap(vals)
+	for _, v := range append(append([]vr{}, intVars...), otherVars...) {
+		w.Inc("normaliser_probes")
+		if got, ok := tvm[v.name]; !ok || !valEq(got, v.val.norm) {
+			w.Fail("wrong-normalisation/ToValueMap/"+v.val.typ, "ToValueMap gives %s for %s value %v, expected %s", valTextAny(got), v.val.typ, v.val.raw, valText(v.val.norm))
+		}
+		if got := eval.UnifyType(v.val.raw); !valEq(got, v.val.norm) {
+			w.Fail("wrong-normalisation/UnifyType/"+v.val.typ, "UnifyType gives %s for %s value %v, expected %s", valTextAny(got), v.val.typ, v.val.raw, valText(v.val.norm))
+		}
+	}
 	// the probe expressions
 	var terms []string
 	var wantSum int64
